@@ -819,6 +819,66 @@ def emit_params(repo, frags):
     return "\n".join(out) + "\n"
 
 
+def emit_float_add_params(repo, frags):
+    """constants and conditions of float/src/add.rs and float/src/root.rs that the addition / sqrt theorems depend on:
+    the far-apart test, the precision of its stand-in, the extra digit on subtraction, the sqrt scaling exponent"""
+    out = ["(** GENERATED by tools/translate.py from float/src/add.rs and float/src/root.rs. *)",
+           "From Coq Require Import ZArith.", "Open Scope Z_scope.", ""]
+
+    def put(name, text):
+        out.append(text)
+        frags.append((name, "ok"))
+
+    def fail(name, why):
+        frags.append((name, "unparsed %s" % why[:100]))
+        out.append("(* UNPARSED %s *)" % name)
+
+    try:
+        src = open(os.path.join(repo, "float/src/add.rs")).read()
+    except OSError as ex:
+        src = ""
+    for tag, fn, big, small_est in (("ls", "repr_add_large_small", "ldigits", "rdigits_est"),
+                                    ("sl", "repr_add_small_large", "rdigits", "ldigits_est")):
+        try:
+            body = fn_body(src, r"fn\s+" + fn + r"\b[^{]*")
+        except (LookupError, ValueError) as ex:
+            for nm in ("far_cond_%s_gen" % tag, "far_low_prec_%s_gen" % tag, "rnd_precision_%s_gen" % tag):
+                fail(nm, str(ex))
+            continue
+        m = re.search(r"let\s+rnd_precision\s*=\s*self\.precision\s*\+\s*is_sub\s+as\s+usize\s*;", body)
+        if m:
+            put("rnd_precision_%s_gen" % tag,
+                "Definition rnd_precision_%s_gen (p : Z) (is_sub : bool) : Z := p + (if is_sub then 1 else 0)." % tag)
+        else:
+            fail("rnd_precision_%s_gen" % tag, "rnd_precision is not `self.precision + is_sub as usize`")
+        m = re.search(r"self\.is_limited\(\)\s*&&\s*%s\s*\+\s*(\d+)\s*<\s*ediff\s*&&\s*%s\s*\+\s*(\d+)\s*\+\s*rnd_precision\s*<\s*%s\s*\+\s*ediff"
+                      % (small_est, small_est, big), body)
+        if m:
+            put("far_cond_%s_gen" % tag,
+                "Definition far_cond_%s_gen (est ediff rp big : Z) : bool := (est + %s <? ediff) && (est + %s + rp <? big + ediff)."
+                % (tag, m.group(1), m.group(2)))
+        else:
+            fail("far_cond_%s_gen" % tag, "far-apart condition has another shape")
+        m = re.search(r"let\s+low_prec\s*=\s*if\s+%s\s*>=\s*rnd_precision\s*\{\s*(\d+)\s*\}\s*else\s*\{\s*\(rnd_precision\s*-\s*%s\)\s*\+\s*(\d+)\s*\}\s*;"
+                      % (big, big), body)
+        if m:
+            put("far_low_prec_%s_gen" % tag,
+                "Definition far_low_prec_%s_gen (rp d : Z) : Z := if d >=? rp then %s else rp - d + %s."
+                % (tag, m.group(1), m.group(2)))
+        else:
+            fail("far_low_prec_%s_gen" % tag, "low_prec of the stand-in has another shape")
+    try:
+        rsrc = open(os.path.join(repo, "float/src/root.rs")).read()
+        m = re.search(r"let\s+shift\s*=\s*self\.precision\s+as\s+isize\s*\*\s*(\d+)\s*-\s*\(\(digits\s*\+\s*x\.exponent\)\s*&\s*1\)\s*-\s*digits\s*;", rsrc)
+        if m:
+            put("sqrt_shift_gen", "Definition sqrt_shift_gen (p digits e : Z) : Z := p * %s - ((digits + e) mod 2) - digits." % m.group(1))
+        else:
+            fail("sqrt_shift_gen", "sqrt scaling exponent has another shape")
+    except OSError as ex:
+        fail("sqrt_shift_gen", str(ex))
+    return "\n".join(out) + "\n"
+
+
 def main():
     ap = argparse.ArgumentParser()
     ap.add_argument("--repo", default="/repo")
@@ -830,6 +890,7 @@ def main():
         "SignTables.v": emit_sign_tables,
         "RoundTables.v": emit_round_tables,
         "Params.v": emit_params,
+        "FloatAddParams.v": emit_float_add_params,
     }
     for fname, fn in files.items():
         try:
